@@ -158,33 +158,53 @@ impl Drop for Val {
     }
 }
 
+/// renders into a small stack buffer and hands the text to `Formatter::pad`, so that width /
+/// alignment flags of the format spec are honoured without touching the heap
+fn padded(f: &mut fmt::Formatter<'_>, args: fmt::Arguments<'_>) -> fmt::Result {
+    struct Buf([u8; 48], usize);
+    impl fmt::Write for Buf {
+        fn write_str(&mut self, s: &str) -> fmt::Result {
+            let b = s.as_bytes();
+            if self.1 + b.len() > self.0.len() {
+                return Err(fmt::Error);
+            }
+            self.0[self.1..self.1 + b.len()].copy_from_slice(b);
+            self.1 += b.len();
+            Ok(())
+        }
+    }
+    let mut b = Buf([0; 48], 0);
+    fmt::Write::write_fmt(&mut b, args)?;
+    f.pad(std::str::from_utf8(&b.0[..b.1]).unwrap_or("?"))
+}
+
 // Debug / Display output is comma-free, so that a rendered list can be split.
 impl fmt::Debug for Key {
     fn fmt(&self, f: &mut fmt::Formatter<'_>) -> fmt::Result {
         self.check("fmt");
         ledger::maybe_panic('t', self.serial, 0);
-        write!(f, "K{}.{}#{}", self.cls.class, self.ver, self.serial)
+        padded(f, format_args!("K{}.{}#{}", self.cls.class, self.ver, self.serial))
     }
 }
 impl fmt::Display for Key {
     fn fmt(&self, f: &mut fmt::Formatter<'_>) -> fmt::Result {
         self.check("fmt");
         ledger::maybe_panic('t', self.serial, 0);
-        write!(f, "k{}.{}#{}", self.cls.class, self.ver, self.serial)
+        padded(f, format_args!("k{}.{}#{}", self.cls.class, self.ver, self.serial))
     }
 }
 impl fmt::Debug for Val {
     fn fmt(&self, f: &mut fmt::Formatter<'_>) -> fmt::Result {
         self.check("fmt");
         ledger::maybe_panic('t', self.serial, 0);
-        write!(f, "V{}#{}", self.content, self.serial)
+        padded(f, format_args!("V{}#{}", self.content, self.serial))
     }
 }
 impl fmt::Display for Val {
     fn fmt(&self, f: &mut fmt::Formatter<'_>) -> fmt::Result {
         self.check("fmt");
         ledger::maybe_panic('t', self.serial, 0);
-        write!(f, "v{}#{}", self.content, self.serial)
+        padded(f, format_args!("v{}#{}", self.content, self.serial))
     }
 }
 
